@@ -298,6 +298,41 @@ def r6(ctx):
     ctx.floor(R, 3)
 
 
+def r7(ctx):
+    R = "C20-R7"
+    ctx.rule(R, "a reaction to a trigger acts on the triggering code, not on shared state: the corruption hook (which ends in trigger_noop and may "
+                "panic for a Panic barrier) must not be invoked while the host's Fs mutex is held - fire_corruption is called from inside the "
+                "closures that FsContext::current / with_fs_and_io_uring run under the lock, so it must hand the event over (queue it) instead of "
+                "calling the hook in place. A panic under the lock poisons the mutex: the File being dropped during the unwind panics again "
+                "(process abort), and every later fs call of the host fails with `Fs mutex poisoned` even after the barrier is gone")
+    if ctx.config != "all":
+        ctx.info(R, "feature-off", "", "unstable-fs not enabled together with unstable-barriers in this configuration")
+        return
+    fc = ctx.w.bodies.get("turmoil_fs::fire_corruption")
+    if not fc:
+        if ctx.strict:
+            ctx.bad(R, "anchor-missing:turmoil_fs::fire_corruption", "", "fire_corruption not found")
+        return
+    direct = [t for fb in ctx.w.family(fc.id) for bb, t in fb.calls(re.compile(r"^std::ops::Fn::call$|Fn>::call$|FnMut>::call_mut$|FnOnce>::call_once$")) if not str(t.get("x", "")).startswith("m:")]
+    LOCKED = re.compile(r"^turmoil_fs::FsContext::current$|^turmoil_fs::FsContext::current_if_set$|with_fs_and_io_uring$")
+    under = []
+    for b in sorted(ctx.w.bodies.values(), key=lambda b: b.id):
+        if b.crate not in ("turmoil_fs", "turmoil_io_uring") or "::tests::" in b.id:
+            continue
+        for bb, t in b.calls(LOCKED):
+            for cid in closure_args(b, t):
+                if may_call(ctx.w, [cid], "turmoil_fs::fire_corruption"):
+                    under.append((b.id, t["s"]))
+    # a call from a function that is itself only run under the lock (exec_read is handed &mut Fs by with_fs_and_io_uring)
+    ok = not (direct and under)
+    ctx.inst(R, "corruption-hook:not-under-the-fs-lock", ok, under[0][1] if under else fc.span,
+             "the hook is not called in place from code that holds the Fs mutex" if ok else
+             f"fire_corruption calls the installed hook in place and is reached from closures run under the Fs mutex ({len(under)} sites, e.g. `{under[0][0]}`): "
+             "a Reaction::Panic barrier on FsCorruption panics with the mutex held - the process aborts when the open File is dropped during the unwind, "
+             "or, if the software catches the panic, every later fs call of the host fails with `Fs mutex poisoned`")
+    ctx.floor(R, 1)
+
+
 def run(ctx):
     global ctx_w
     ctx_w = ctx.w
@@ -310,3 +345,4 @@ def run(ctx):
     r4(ctx)
     r5(ctx)
     r6(ctx)
+    r7(ctx)
